@@ -1111,6 +1111,8 @@ func c17(c *Ctx) {
 		repo = "/repo"
 	}
 	c.Rule = "probes: one witness grammar per known class of build failures (" + fmt.Sprint(len(c17Classes)) + " classes: guard-level ones listed in the Lean expectation table, type-level template defects, go vet complaints, symbol-name collisions); " +
+		"table widths: gen.bitsPerElement / gen.bits vs the Lean mirror on random arrays mixing small values with the extremes of int8/int16/int32 of both signs (judge: the chosen width must hold every element); " +
+		"families in every run: 12 width grammars (one rule of n keywords and a literal of n characters: parser states, rule length and lexer DFA states 126..131, optimizeTables on/off; thorough: 32768/32769 states) and lexer shapes ((space) rule? x code action? in all four combinations, the other lexer dimensions - typed token, class rule, explicit invalid_token rule, backtracking, start conditions, tokenLine, scanBytes, with/without a parser - at random); " +
 		"sweep: skeleton grammars (statement/expression language; lexer features: class rule + keywords, typed token, unicode classes beyond U+0800, backtracking, start conditions, space/comment tokens, invalid_token, lexer code; " +
 		"parser features: error recovery, recoveryScope marker, %inject, lookahead predicates, lalr(2), typed nonterminals with semantic actions and aliases, mid-rule actions, several inputs, no-eoi inputs, named sets, %interface categories, state markers, lists with separators, optionals, inner arrows, precedence, template flags) " +
 		"and random CFGs (gram.go RandGram) with rule arrows, under feature/option vectors chosen greedily for pairwise coverage of " + fmt.Sprint(len(c17Bools)) + " Boolean dimensions (eventBased/eventFields/eventAST/genSelector/fileNode/tokenStream/fixWhitespace/cancellable(+Fetch)/recursiveLookaheads/optimizeTables/defaultReduce/minimizeDFA/writeBison/debugParser/tokenLine/tokenLineOffset/tokenColumn/scanBytes/nonBacktracking/skipByteOrderMark/caseInsensitive/nodePrefix/extraTypes and the features above), normalised by the dependencies the compiler enforces; " +
@@ -1207,11 +1209,29 @@ func c17(c *Ctx) {
 			addFam("width", c17WidthTM("w", states-c17WidthStatesOverhead, states-c17WidthLexOverhead, opt, evb), c17Feat{"optimizeTables": opt, "eventBased": evb})
 		}
 	}
+	// thorough: the int16 boundary (the LALR construction takes minutes for one 32768-symbol rule, so each grammar
+	// is generated by a child of its own, concurrently with everything below; joined before the pairwise report)
+	var wide []*c17Batch
+	wideDone := make(chan struct{})
 	if c.Tier == "thorough" {
-		for _, states := range []int{32766, 32768, 32769} {
-			addFam("width16", c17WidthTM("w", states-c17WidthStatesOverhead, 40, true, evb), c17Feat{"optimizeTables": true, "eventBased": evb})
+		for i, states := range []int{32768, 32769} {
+			wb := c17NewBatch()
+			name := fmt.Sprintf("h%d", i)
+			text := c17WidthTM(name, states-c17WidthStatesOverhead, 40, true, evb)
+			wb.add(&c17Case{Name: name, Kind: "width16", Feat: c17Feat{"optimizeTables": true, "eventBased": evb}, Text: text})
+			wide = append(wide, wb)
 		}
 	}
+	go func() {
+		done := make(chan struct{}, len(wide))
+		for _, wb := range wide {
+			go func(wb *c17Batch) { wb.generate(); done <- struct{}{} }(wb)
+		}
+		for range wide {
+			<-done
+		}
+		close(wideDone)
+	}()
 	// (2) lexer shapes: (space rule?) × (code action?) always, the other lexer dimensions at random
 	for i := 0; i < c.N(10, 40); i++ {
 		m := i & 3 // bits 0, 1: all four combinations, repeatedly
@@ -1381,6 +1401,24 @@ func c17(c *Ctx) {
 			}
 		}
 		b.close()
+	}
+	<-wideDone
+	for _, wb := range wide {
+		wb.build(c)
+		for _, cs := range wb.cases {
+			c.Count(cs.Kind + "-" + cs.Status)
+			for _, kv := range strings.Fields(cs.Size) {
+				c.Count(cs.Kind + "-" + kv)
+			}
+			if cs.Status == "ok" {
+				cs.Vet = c17VetFilter(cs, avoid)
+			}
+			c17Record(c, cs)
+			if cs.Status != "ok" || cs.Build != "" || cs.Vet != "" {
+				c17Report(c, cs, c17Classify(cs))
+			}
+		}
+		wb.close()
 	}
 	// pairwise coverage reached
 	total, got := 0, 0
